@@ -251,6 +251,11 @@ impl<'a> SendStream<'a> {
             .map(get_or_insert_send(max_send_data))
             .ok_or(WriteError::ClosedStream)?;
 
+        // A finished or reset half never becomes writable again: report the closed stream instead of
+        // waiting for connection-level credit (no `Writable` event would ever follow)
+        if !stream.is_writable() {
+            return Err(WriteError::ClosedStream);
+        }
         // A stream stopped by the peer never becomes writable again (no further MAX_STREAM_DATA, hence
         // possibly no further `Writable` event): report the stop instead of waiting for connection-level
         // credit, exactly as `Send::write` does when credit is available.
